@@ -596,6 +596,24 @@ func sizeOfKind(kind reflect.Kind) int {
 	panic("unsupported kind " + kind.String())
 }
 
+// isTextUnmarshalerStruct reports whether t is a struct, or a pointer to a struct, that is
+// filled from text through encoding.TextUnmarshaler.
+func isTextUnmarshalerStruct(t reflect.Type) bool {
+	if t.Kind() == reflect.Ptr {
+		t = t.Elem()
+	}
+	return t.Kind() == reflect.Struct && (t.Implements(textUnmarshalerType) || reflect.PtrTo(t).Implements(textUnmarshalerType))
+}
+
+func allStrings(values []reflect.Value) bool {
+	for _, v := range values {
+		if v.Kind() != reflect.String {
+			return false
+		}
+	}
+	return true
+}
+
 func maybeRef(tmpl reflect.Type, strct reflect.Value) reflect.Value {
 	if strct.Type() == tmpl {
 		return strct
@@ -680,6 +698,21 @@ func setField(tokens []lexer.Token, strct reflect.Value, field structLexerField,
 				d := reflect.New(sliceElemType).Interface().(Capture)
 				if err := d.Capture([]string{v.Interface().(string)}); err != nil {
 					return Wrapf(pos, err, "failed to capture")
+				}
+				eltValue := reflect.ValueOf(d)
+				if f.Type().Elem().Kind() != reflect.Ptr {
+					eltValue = eltValue.Elem()
+				}
+				f.Set(reflect.Append(f, eltValue))
+			}
+		} else if isTextUnmarshalerStruct(sliceElemType) && allStrings(fieldValue) {
+			if sliceElemType.Kind() == reflect.Ptr {
+				sliceElemType = sliceElemType.Elem()
+			}
+			for _, v := range fieldValue {
+				d := reflect.New(sliceElemType).Interface().(encoding.TextUnmarshaler)
+				if err := d.UnmarshalText([]byte(v.String())); err != nil {
+					return Wrapf(pos, err, "failed to unmarshal text")
 				}
 				eltValue := reflect.ValueOf(d)
 				if f.Type().Elem().Kind() != reflect.Ptr {
